@@ -72,7 +72,9 @@ pub fn thread_allocs() -> u64 {
 
 #[inline]
 fn attributed_now() -> bool {
-    WINDOW.with(|w| w.get()) > 0 && USER.with(|u| u.get()) == 0
+    // allocations made while a panic is in flight belong to the panic runtime (the message of a
+    // formatted panic is allocated before the panic hook runs)
+    WINDOW.with(|w| w.get()) > 0 && USER.with(|u| u.get()) == 0 && !std::thread::panicking()
 }
 
 // ---------------------------------------------------------------------------------------------
